@@ -17,6 +17,7 @@ import (
 	"sort"
 	"strings"
 	"sync"
+	"sync/atomic"
 	"time"
 
 	mcp "trpc.group/trpc-go/trpc-mcp-go"
@@ -460,6 +461,14 @@ func runExecuteWith(c *hk.Ctx, cfg *mcp.VerifRetryConfig, script []any, cancelAt
 			defer t.Stop()
 		}
 	}
+	// watchdog (C17_total_wait_bounded: the whole sequence sleeps at most MaxRetries x MaxBackoff): a run that is still
+	// going a generous 20 s after that bound is ended through its context and reported with its configuration, instead of
+	// sleeping an uncapped wait in full
+	var overslept atomic.Bool
+	if cfg != nil && cfg.MaxRetries > 0 && cfg.MaxRetries <= 10 && cfg.MaxBackoff > 0 && cfg.MaxBackoff <= 5*time.Second {
+		wd := time.AfterFunc(time.Duration(cfg.MaxRetries)*cfg.MaxBackoff+20*time.Second, func() { overslept.Store(true); cancel() })
+		defer wd.Stop()
+	}
 	start := time.Now()
 	err := mcp.VerifRetryExecute(ctx, op.call, cfg, "verif")
 	end := time.Now()
@@ -491,6 +500,9 @@ func runExecuteWith(c *hk.Ctx, cfg *mcp.VerifRetryConfig, script []any, cancelAt
 	r.op = map[string]any{"c": "retry.execute", "cfg": cj, "script": script, "cancelAt": ca}
 	r.impl = map[string]any{"attempts": len(op.times), "result": result, "waits": gaps, "elapsed": int64(end.Sub(start))}
 	r.nt = len(op.times) > 1
+	if overslept.Load() {
+		c.Violate(hk.Violation{Fingerprint: "retry.execute:sleeps-beyond-maxretries-x-maxbackoff", What: "Execute was still waiting 20 s after MaxRetries x MaxBackoff had passed (every wait is capped at MaxBackoff and there are at most MaxRetries of them)", Input: r.op, Observed: r.impl})
+	}
 	// implementation-level oracles that need no model
 	if cfg != nil && cfg.MaxRetries >= 0 && len(op.times) > cfg.MaxRetries+1 {
 		c.Violate(hk.Violation{Fingerprint: "retry.execute:too-many-attempts", What: "more than MaxRetries+1 attempts", Input: r.op, Observed: r.impl})
